@@ -1,5 +1,6 @@
 (* C10 driver.  Case lines (harness c10.go):   Q <stream> <runes> <typings>
-   runes: code points, hex, '.'-separated ('-' = empty).
+   runes: code points, hex, '.'-separated ('-' = empty); xHH = a raw byte that is not part of a well-formed UTF-8
+   sequence: the input stream of the lexer ([]rune of the Go string) holds U+FFFD for it.
    Output:  Q <tokens k:start:len,...> e<number of dropped regions> <sentence>
    sentence: for inputs whose tokens are all skeleton tokens (identifier, and, or, not, parentheses, WS)
    and without dropped regions: 1 if the boolExpr model accepts the token sequence as a filter and
@@ -7,7 +8,8 @@
    identifiers occur, 0 if it is not a sentence; '-' when the model parser does not cover the input. *)
 let runes_of (s : string) : n list =
   if s = "-" then [] else
-    List.map (fun h -> n_of_int (int_of_string ("0x" ^ h))) (String.split_on_char '.' s)
+    List.map (fun h -> if String.length h > 0 && h.[0] = 'x' then n_of_int 0xFFFD else n_of_int (int_of_string ("0x" ^ h)))
+      (String.split_on_char '.' s)
 
 let rec len = function [] -> 0 | _ :: r -> 1 + len r
 
@@ -36,5 +38,14 @@ let () =
           if not skeleton then "-"
           else match compile fixed_prec ts with Some _ -> (if known then "1" else "u") | None -> "0" in
         Printf.printf "Q %s e%d %s\n" tokstr !drops sentence
+    | "W" :: _what :: runes :: _ ->
+        (* the harness's population of blank-like characters (from Go's unicode tables): how many of them are in the table
+           blank_like_foreign of Lang/ForeignBlank.v, start no token, end no token, are no grammar white space; the size
+           of the table *)
+        let rs = runes_of runes in
+        let count p = List.length (List.filter p rs) in
+        let in_table c = List.exists (fun x -> int_of_n x = int_of_n c) blank_like_foreign in
+        Printf.printf "W t%d s%d e%d w%d n%d\n" (count in_table) (count starts_no_token) (count ends_no_token)
+          (count (fun c -> not (is_ws c))) (List.length blank_like_foreign)
     | [] -> ()
     | _ -> print_endline "?")
